@@ -22,6 +22,8 @@ type Tracer struct {
 	f   *os.File
 	seq atomic.Int64
 	N   int
+	// Sync flushes after every event so that a crash of the code under test loses nothing.
+	Sync bool
 }
 
 func NewTracer(path string) (*Tracer, error) {
@@ -43,6 +45,9 @@ func (t *Tracer) Emit(ev map[string]any) {
 	}
 	t.w.Write(b)
 	t.w.WriteByte('\n')
+	if t.Sync {
+		t.w.Flush()
+	}
 	t.N++
 }
 
